@@ -2,6 +2,8 @@ import LoraVerif.Props.C11
 import LoraVerif.Props.TieA.C11
 import LoraVerif.Props.TieA.PlanMask
 import LoraVerif.Props.TieA.MacTopC
+import LoraVerif.Props.TieA.MacTopTx
+import LoraVerif.Props.TieA.MacTopOtaa
 /-!
 # C11 — the module `./check C11` builds: the property theorems (`Props/C11.lean`) together with the
 tie-A equalities between the hand model's constants and the items regenerated from the current
